@@ -4,11 +4,13 @@ package main
 
 import (
 	"bytes"
+	"encoding/asn1"
 	"encoding/pem"
 	"fmt"
 	"math/big"
 	"os"
 	"strings"
+	"time"
 
 	"github.com/wokdav/gopki/generator/cert"
 )
@@ -235,6 +237,7 @@ func exhaustiveCert(g *gen) {
 			late = append(late, inh)
 			batchP("c04-late", slowRoot, late, []*Profile{{Name: "plate", Validity: Validity{Until: "2044-04-04"}}})
 		}
+		c04Instants()
 	case "c05":
 		{
 			// supplied keys whose public point has a leading zero octet in one coordinate, on every curve
@@ -389,6 +392,27 @@ func exhaustiveCert(g *gen) {
 			}
 		}
 		flush()
+		// twins: entities whose own configurations are identical (same subject, key type, validity, extension list) and that differ
+		// only in the profile they name - each takes its own profile's extensions and validity, whatever was merged for the other
+		{
+			var ss []Cfg
+			var ps []*Profile
+			for k := 0; k+1 < len(plists) && k < 14; k++ {
+				pa := &Profile{Name: fmt.Sprintf("twa%d", k), Exts: append([]PExt{}, plists[k]...), Validity: Validity{From: "2022-02-02", Until: "2032-02-02"}}
+				pb := &Profile{Name: fmt.Sprintf("twb%d", k), Exts: append([]PExt{}, plists[k+1]...), Validity: Validity{From: "2023-03-03", Duration: "3y"}}
+				ps = append(ps, pa, pb)
+				for _, pn := range []string{pa.Name, pb.Name} {
+					c := plainSub(700 + k)
+					c.Exts = append([]Ext{}, clists[k%len(clists)]...)
+					if k%2 == 1 {
+						c.Validity = Validity{}
+					}
+					c.Profile = pn
+					ss = append(ss, c)
+				}
+			}
+			batchP("c08-twins", plainRoot(), ss, ps)
+		}
 		// several certificates under ONE profile whose certificatePolicies entry holds a user notice with an empty number list: the
 		// profile stays what it was while its certificates are built one after the other (library path) or all at once (files)
 		{
@@ -453,7 +477,9 @@ func exhaustiveCert(g *gen) {
 			s.Exts = []Ext{e}
 			subs = append(subs, s)
 		}
-		for _, ip := range []string{"0.0.0.0", "255.255.255.255", "256.1.1.1", "1.2.3", "1.2.3.4.5", "-1.2.3.4", "a.b.c.d", "300.1.2.3"} {
+		for _, ip := range []string{"0.0.0.0", "255.255.255.255", "256.1.1.1", "1.2.3", "1.2.3.4.5", "-1.2.3.4", "a.b.c.d", "300.1.2.3",
+			// octets spelled with leading zeros are decimal (010 is ten, 077 seventy-seven); prefixes and separators of other bases are not numbers
+			"192.168.001.010", "10.0.0.077", "010.008.09.0", "1.2.3.0377", "00000000000000000000001.2.3.4", "+1.2.3.4", "0x10.1.1.1", "1.0b1.1.1", "1_0.1.1.1", "0o7.1.1.1", "1.2.3.0255"} {
 			s := plainSub(0)
 			s.Exts = []Ext{{Kind: "san", Crit: -1, HasContent: true, Names: [][2]string{{"ip", ip}}}}
 			subs = append(subs, s)
@@ -553,6 +579,28 @@ func exhaustiveCert(g *gen) {
 			w.Exts = []Ext{{Kind: "custom", Oid: "1.2.3.4294967296", Raw: "!null", Crit: -1}}
 			batch("c19-f29-witness", plainRoot(), []Cfg{w})
 		}
+		{
+			// the identifiers of real algorithms as manipulation values: they are written as given (an identifier alone, no parameters
+			// added, whatever algorithm it names), inner and outer independently of each other
+			var subs []Cfg
+			for i, oid := range []string{"1.2.840.113549.1.1.5", "1.2.840.113549.1.1.11", "1.2.840.113549.1.1.12", "1.2.840.113549.1.1.13", "1.2.840.113549.1.1.10",
+				"1.2.840.10045.4.3.2", "1.2.840.10045.4.3.4", "1.2.840.113549.1.1.1", "1.2.840.10045.2.1"} {
+				a := plainSub(300 + i)
+				a.Serial = int64(3000 + i)
+				a.Manip.Inner = oid
+				b := plainSub(320 + i)
+				b.Serial = int64(3200 + i)
+				b.Manip.Outer = oid
+				c := plainSub(340 + i)
+				c.Serial = int64(3400 + i)
+				c.Manip.PkAlg = oid
+				subs = append(subs, a, b, c)
+			}
+			batch("c19-real-oids", plainRoot(), subs)
+			rsaRoot := plainRoot()
+			rsaRoot.KeyAlg, rsaRoot.SigAlg = "RSA-2048", "RSAwithSHA256"
+			batch("c19-real-oids-rsa", rsaRoot, subs[:12])
+		}
 		vals := Manip{Outer: "1.2.3.4", SigValue: "!binary:AQIDBA==", Inner: "1.2.3.11", PkAlg: "1.5.1.3", Pk: "!binary:BAECAwQ="}
 		three := int64(3)
 		for _, rootToo := range []bool{false, true} {
@@ -607,6 +655,70 @@ func exhaustiveCert(g *gen) {
 
 // witnesses of the recorded findings (known_findings.json); they stay in the stream so that the findings are re-observed on
 // every run and a repair shows up as "not reproduced"
+// c04Instants hands instants straight to cert.NewCertificateContext, as a run without `from` does with the time of the run: in
+// zones with daylight saving, on both passes of the hour the local clocks show twice, at the edges of the skipped hour, with
+// fractions of a second and with a monotonic reading.  Both validity times must be the instants handed in, in UTC, and survive
+// the DER encoding to the second.  Checked with the standard library alone.
+func c04Instants() {
+	zones := []string{"UTC", "Europe/Berlin", "America/New_York", "Australia/Sydney", "America/St_Johns", "Pacific/Chatham", "Asia/Tokyo", "Australia/Lord_Howe"}
+	total, wrong, first := 0, 0, ""
+	check := func(zone string, t time.Time) {
+		total++
+		na := t.AddDate(5, 0, 0)
+		ctx := cert.NewCertificateContext(nil, nil, t, na)
+		nb, naGot := ctx.Validity.NotBefore, ctx.Validity.NotAfter
+		bad := ""
+		if nb.Unix() != t.Unix() || naGot.Unix() != na.Unix() {
+			bad = fmt.Sprintf("notBefore %s / notAfter %s", nb.Format(time.RFC3339), naGot.Format(time.RFC3339))
+		} else if _, off := nb.Zone(); off != 0 {
+			bad = "validity kept in a zone other than UTC"
+		} else if der, err := asn1.Marshal(ctx.Validity); err != nil {
+			bad = "validity does not encode: " + err.Error()
+		} else {
+			var back struct{ NotBefore, NotAfter time.Time }
+			if _, err := asn1.Unmarshal(der, &back); err != nil || back.NotBefore.Unix() != t.Unix() || back.NotAfter.Unix() != na.Unix() {
+				bad = fmt.Sprintf("encoded validity reads back as %s / %s", back.NotBefore.UTC().Format(time.RFC3339), back.NotAfter.UTC().Format(time.RFC3339))
+			}
+		}
+		if bad != "" {
+			wrong++
+			if first == "" {
+				first = fmt.Sprintf("zone %s, instant %s (= %s): %s", zone, t.Format(time.RFC3339Nano), t.UTC().Format(time.RFC3339), bad)
+			}
+		}
+	}
+	for _, z := range zones {
+		loc, err := time.LoadLocation(z)
+		if err != nil {
+			fmt.Fprintf(out, "NOTE c04-instants: zone %s not available: %v\n", z, err)
+			continue
+		}
+		for _, year := range []int{2024, 2031, 2049} {
+			start := time.Date(year, 1, 1, 0, 0, 0, 0, time.UTC)
+			_, prev := start.In(loc).Zone()
+			for h := 1; h < 366*24; h++ {
+				t := start.Add(time.Duration(h) * time.Hour)
+				if _, off := t.In(loc).Zone(); off != prev {
+					prev = off
+					// every quarter of an hour from three hours before the change to three hours after it
+					for q := -12; q <= 12; q++ {
+						u := t.Add(time.Duration(q) * 15 * time.Minute)
+						check(z, u.In(loc))
+						check(z, u.Add(123456789*time.Nanosecond).In(loc))
+					}
+				}
+			}
+			check(z, time.Date(year, 6, 15, 12, 0, 0, 999999999, loc))
+		}
+		check(z, time.Now().In(loc))
+	}
+	check("Local", time.Now())
+	if wrong > 0 {
+		fmt.Fprintf(out, "SELFFAIL c04-instants: %d of %d instants handed to NewCertificateContext are not the validity times it records (first: %s)\n", wrong, total, first)
+	}
+	fmt.Fprintf(out, "NOTE c04-instants: %d instants around every offset change of %d zones in 2024, 2031 and 2049, %d wrong\n", total, len(zones), wrong)
+}
+
 func knownWitnesses() {
 	s1 := plainSub(1)
 	s1.Exts = []Ext{{Kind: "bc", Crit: 1, HasContent: true, HasCa: true, Ca: true, HasPl: true, PathLen: 0}}
